@@ -9,7 +9,7 @@ correspondence of the layout harness.
 from vlib import histcheck
 
 MODULE = "TriompheModel.Props.C12"
-EXTRA = ["TriompheModel.Props.C12Arith", "TriompheModel.Props.TraitCensus"]
+EXTRA = ["TriompheModel.Props.C12Arith", "TriompheModel.Props.TraitCensus", "TriompheModel.Props.Monitor"]
 TAGS = ["C12"]
 WEIGHTS = dict(create=18, conv=24, clone=18, cloneArc=14, cb=12, drop=12)
 
